@@ -122,6 +122,8 @@ def compr_permutation_lat_trans_O4(
     # order = 3
     if n_batch is None:
         n_batch3 = 1 if natom <= 128 else int(round((natom / 128) ** 2))
+    else:
+        n_batch3 = n_batch
     n_batch3 = _verif_override("PERM_NBATCH", n_batch3)
 
     combinations = get_combinations(
@@ -179,6 +181,8 @@ def compr_permutation_lat_trans_O4(
     # order = 4
     if n_batch is None:
         n_batch4 = 1 if natom <= 16 else int(round((natom / 16) ** 2))
+    else:
+        n_batch4 = n_batch
     n_batch4 = _verif_override("PERM_NBATCH", n_batch4)
 
     combinations = get_combinations(
